@@ -169,6 +169,41 @@ func GenValid(r *rand.Rand, profile string) *Policy {
 		}
 		p.Groups = append(p.Groups, g)
 	}
+	// related condition lists for the same syscall in one group (merged into one entry, OR of lists):
+	// exact duplicates, a changed operand, a repeated argument in front (the per-argument last
+	// conditions stay the same), a permutation, a dropped condition
+	if profile != "names" && profile != "single" {
+		for gi := range p.Groups {
+			g := &p.Groups[gi]
+			if len(g.WithConds) == 0 || r.Intn(3) != 0 {
+				continue
+			}
+			src := g.WithConds[r.Intn(len(g.WithConds))]
+			if len(src.Conds) == 0 {
+				continue
+			}
+			cs := append([]Cond{}, src.Conds...)
+			switch r.Intn(6) {
+			case 0: // exact duplicate
+			case 1:
+				cs[len(cs)-1].Val = Operand(r)
+			case 2:
+				k := cs[r.Intn(len(cs))]
+				front := Cond{Arg: k.Arg, Op: Ops[r.Intn(len(Ops))], Val: Operand(r)}
+				cs = append([]Cond{front}, cs...)
+			case 3:
+				r.Shuffle(len(cs), func(i, j int) { cs[i], cs[j] = cs[j], cs[i] })
+			case 4:
+				cs = cs[1:]
+				if len(cs) == 0 {
+					cs = []Cond{{Arg: src.Conds[0].Arg, Op: "NotEqual", Val: src.Conds[0].Val}}
+				}
+			case 5:
+				cs[0].Op = Ops[r.Intn(len(Ops))]
+			}
+			g.WithConds = append(append([]NameConds{}, g.WithConds...), NameConds{Name: src.Name, Conds: cs})
+		}
+	}
 	// the same syscall in several groups, conditional in one and not in another
 	if len(p.Groups) > 1 && r.Intn(3) == 0 {
 		a, b := r.Intn(len(p.Groups)), r.Intn(len(p.Groups))
@@ -340,4 +375,61 @@ func Inject(r *rand.Rand, p *Policy, defect string) bool {
 		return false
 	}
 	return false
+}
+
+// GenBoundary generates a valid policy whose architecture jump sits at the boundary between the
+// 8-bit form and the `jeq; ja` form (jumpN in 250..260), with and without conditional entries.
+func GenBoundary(r *rand.Rand) *Policy {
+	for tries := 0; tries < 20; tries++ {
+		base := "names"
+		if r.Intn(2) == 0 {
+			base = "conds"
+		}
+		p := GenValid(r, base)
+		// keep the groups small, then pad with one group of plain names
+		for gi := range p.Groups {
+			if len(p.Groups[gi].Names) > 20 {
+				p.Groups[gi].Names = p.Groups[gi].Names[:r.Intn(20)]
+			}
+		}
+		reply, insts := p.Compile()
+		if insts == nil {
+			_ = reply
+			continue
+		}
+		jumpN := len(insts) - 3 // short form: ld arch, jne, ld nr, then jumpN instructions
+		if _, ok := insts[1].(interface{}); ok && len(insts) > 258 {
+			jumpN = len(insts) - 4
+		}
+		target := 250 + r.Intn(11)
+		need := target - jumpN - 2 // a new group costs its names + ja + ret
+		if need < 1 {
+			continue
+		}
+		used := map[string]bool{}
+		for _, g := range p.Groups {
+			for _, n := range g.Names {
+				used[n] = true
+			}
+			for _, nc := range g.WithConds {
+				used[nc.Name] = true
+			}
+		}
+		var pad []string
+		for _, n := range TableNames(p.Arch) {
+			if !used[n] && len(pad) < need {
+				pad = append(pad, n)
+			}
+		}
+		if len(pad) < need {
+			continue
+		}
+		g := Group{Action: anyAction(r), Names: pad}
+		pos := r.Intn(len(p.Groups) + 1)
+		groups := append([]Group{}, p.Groups[:pos]...)
+		groups = append(groups, g)
+		p.Groups = append(groups, p.Groups[pos:]...)
+		return p
+	}
+	return GenValid(r, "names")
 }
